@@ -10,7 +10,7 @@
    byte-exact generator correspondence and judged on the reference machine. *)
 From Coq Require Import ZArith List String Bool.
 From Gigue Require Import Types Bits Isa Enc GenTables Builder BuilderTies Samplers Generator Machine MachineLemmas
-  SplitProofs FragProofs GenLemmas ImageSem CtorSpec C12Defs C12Proofs.
+  SplitProofs FragProofs GenLemmas ImageSem CtorSpec C12Defs C12Proofs GenWF GenWFProps Witness.
 Import ListNotations.
 Open Scope Z_scope.
 
@@ -22,6 +22,19 @@ Definition C06_calls_decrease_depth_statement : Prop :=
   Forall (fun m => Forall (fun cal => match nth_error (im_methods img) cal with
                                       | Some cm => m_depth cm < m_depth m | None => False end) (m_callees m))
          (im_methods img).
+
+(* PROVED for every accepted configuration, decision script and emitted image
+   (Layer A): every direct jump and every branch of every method instruction
+   (bodies, frames, patched stubs) goes strictly forward, to pc+4 or pc+8; the
+   only other control transfers of a method are the jalr of call stubs and the
+   ret of the epilogue.
+     forward (GJ .. imm) = forward (GB .. imm) := imm = 4 \/ imm = 8 *)
+Theorem C06_no_backward_transfer : forall c script img, successful c script img ->
+  Forall (fun m => Forall (fun g => forward g = true) (m_instrs m)) (im_methods img).
+Proof. exact methods_forward_only. Qed.
+
+Theorem C06_nonvacuous : exists img, successful wcfg_tramp wscript_tramp img.
+Proof. exact witness_tramp. Qed.
 
 (* callees are drawn from the buckets of strictly smaller depth: whenever the
    depth dictionary files every method under its own depth (an invariant of
@@ -43,6 +56,8 @@ Theorem C06_switch_forward_partial : forall v L s P n moff hit cmp,
     (forall r, 0 <= r -> r <> cmp -> rget s' r = rget s r).
 Proof. exact switch_case_miss. Qed.
 
+Print Assumptions C06_no_backward_transfer.
+Print Assumptions C06_nonvacuous.
 Print Assumptions C06_possible_callees_lower_partial.
 Print Assumptions C06_registration_keeps_consistency_partial.
 Print Assumptions C06_switch_forward_partial.
